@@ -460,7 +460,9 @@ def frame_layout(ctx):
     gd = repo.func('qvm.memlayout', 'get_dotted_index')
     ok = pat.has('list(_S.fields).index(_V)', gd.node) and \
         pat.has('list(_S.fields.values())[:_F]', gd.node) and \
-        pat.has('sum((get_type_size(context, _T) for _T in _P))', gd.node)
+        pat.has('sum((get_type_size(context, _T) for _T in _P))', gd.node) \
+        and pat.has('_IDX = 0\nfor _V in dotted_vars:\n    ...\n'
+                    '    _IDX += _F\n    ...\nreturn _IDX', gd.node)
     ctx.instance(rule, f'{gd.file}:get_dotted_index')
     if not ok:
         ctx.finding(rule, f'{gd.file}:get_dotted_index',
